@@ -80,7 +80,8 @@ func dumpCluster() sx.V {
 			owners = append(owners, sx.L(sx.I(s)))
 		}
 	}
-	return sx.L(sx.L(servers...), sx.L(sets...), sx.Bool(st.Changed), sx.L(pools...), sx.L(owners...))
+	// the addresses OnTicker picks the node to probe from: after a ticker round, the pool addresses
+	return sx.L(sx.L(servers...), sx.L(sets...), sx.Bool(st.Changed), sx.L(pools...), sx.L(owners...), sx.Strs(core.VerifProxyAddrs()))
 }
 
 func waitDrained() bool {
